@@ -10,6 +10,8 @@
 //!   20005  one shared Module + prepared keys + read-only ciphertexts used by N threads with private scratch vs alone
 //!   20006  addresses of the windows returned by the real `Scratch::split_mut`
 //!   20007  the documented scratch sizing (threads * per-thread tmp_bytes, nothing added): does split_mut panic?
+//!   20013  one module + prepared key shared (sequentially / concurrently) by workloads with DIFFERENT per-call parameters
+//!          (log_domain, extension factor, output layout, mode) vs each workload alone on a freshly built identical key
 //!
 //! Behind the cargo feature `c20hook` (needs the yield hook `work/proposed_hooks/c20_yield.diff` in /repo:
 //! `poulpy_hal::verif::{set_yield_hook, yield_point}`, compiled with `--cfg poulpy_verif`) the harness installs a
@@ -491,6 +493,102 @@ macro_rules! backend_impl {
                 vec![eq]
             }
 
+            // ---- 20013: one prepared key shared by workloads with DIFFERENT per-call parameters ----
+            type Ctx = TestContext<CGGI, BE>;
+            static MIX_SOLO: LazyLock<Mutex<HashMap<(usize, u64), std::sync::Arc<Vec<u8>>>>> = LazyLock::new(|| Mutex::new(HashMap::new()));
+
+            fn ct_on(ctx: &Ctx, vseed: u64) -> FheUint<Vec<u8>, u32> {
+                let glwe_infos = ctx.glwe_infos();
+                let enc = EncryptionLayout::new_from_default_sigma(glwe_infos).unwrap();
+                let value = Rng::new(vseed).next() as u32;
+                let mut c: FheUint<Vec<u8>, u32> = FheUint::alloc_from_infos(&glwe_infos);
+                let mut scratch: ScratchOwned<BE> = ScratchOwned::alloc(1 << 22);
+                c.encrypt_sk(&ctx.module, value, &ctx.sk_glwe, &enc, &mut Source::new(seed32(2, vseed)), &mut Source::new(seed32(3, vseed)), scratch.borrow());
+                c
+            }
+            /// (mode exponent?, log_domain, extension_factor, output GGSW layout) of the circuit-bootstrapping workloads
+            fn cbt_params(ctx: &Ctx, w: usize) -> (bool, usize, usize, GGSWLayout) {
+                let std = ctx.ggsw_infos();
+                let alt_dnum = GGSWLayout { dnum: Dnum(3), ..std };
+                let alt_b2k = GGSWLayout { base2k: Base2K(10), k: TorusPrecision(30), dnum: Dnum(2), ..std };
+                match w {
+                    1 => (false, 2, 1, std),       // digits over a 2-bit domain
+                    2 => (false, 1, 1, alt_dnum),  // other number of rows
+                    3 => (false, 1, 1, alt_b2k),   // other radix
+                    4 => (true, 1, 1, std),        // exponent mode, 1-bit domain
+                    5 => (true, 2, 1, std),        // exponent mode, 2-bit domain
+                    6 => (false, 1, 2, std),       // extension factor 2
+                    7 => (false, 3, 1, std),       // 3-bit domain
+                    8 => (true, 1, 1, alt_dnum),   // exponent mode, other rows
+                    9 => (false, 1, 1, std),       // the parameters integer preparation uses, called directly
+                    _ => panic!("bad workload"),
+                }
+            }
+            /// one workload on the given context (module + prepared key), own scratch, own outputs -> output bytes
+            fn workload(ctx: &Ctx, w: usize, seed: u64) -> Vec<u8> {
+                let module = &ctx.module;
+                let c = ct_on(ctx, seed);
+                let mut scratch: ScratchOwned<BE> = ScratchOwned::alloc(1 << 24);
+                let mut out: Vec<u8> = Vec::new();
+                match w {
+                    0 | 10 => {
+                        // integer preparation: constant mode, log_domain = 1, extension_factor = 1, TEST_GGSW layout
+                        let mut p: Prep = FheUintPrepared::alloc_from_infos(module, &ctx.ggsw_infos());
+                        if w == 0 { p.prepare_custom_multi_thread(3, module, &c, 0, 32, &ctx.bdd_key, scratch.borrow()); }
+                        else { p.prepare_custom_multi_thread(2, module, &c, 5, 9, &ctx.bdd_key, scratch.borrow()); }
+                        for i in 0..32 { out.extend(prep_bit_bytes(&p, i)); }
+                    }
+                    _ => {
+                        use poulpy_bin_fhe::bdd_arithmetic::BDDKeyHelper;
+                        use poulpy_core::layouts::LWE;
+                        let (exp, log_domain, ext, layout) = cbt_params(ctx, w);
+                        let (cbt, ks_glwe, ks_lwe) = ctx.bdd_key.get_cbt_key();
+                        for bit in [0usize, 1, 7, 18, 31] {
+                            let mut lwe: LWE<Vec<u8>> = LWE::alloc_from_infos(&c);
+                            c.get_bit_lwe(module, bit, &mut lwe, ks_glwe, ks_lwe, scratch.borrow());
+                            let mut ggsw: GGSW<Vec<u8>> = GGSW::alloc_from_infos(&layout);
+                            if exp { cbt.execute_to_exponent(module, 1, &mut ggsw, &lwe, log_domain, ext, scratch.borrow()); }
+                            else { cbt.execute_to_constant(module, &mut ggsw, &lwe, log_domain, ext, scratch.borrow()); }
+                            { use poulpy_hal::layouts::WriterTo; ggsw.write_to(&mut out).unwrap(); }
+                        }
+                    }
+                }
+                out
+            }
+            /// the workload alone on a freshly built, identical (same seeds) module + key
+            fn solo(w: usize, seed: u64) -> std::sync::Arc<Vec<u8>> {
+                if let Some(x) = MIX_SOLO.lock().unwrap().get(&(w, seed)) { return x.clone(); }
+                let ctx = Ctx::new();
+                let v = std::sync::Arc::new(workload(&ctx, w, seed));
+                MIX_SOLO.lock().unwrap().insert((w, seed), v.clone());
+                v
+            }
+            /// 20013: ps = [be, mode, seed, w_1, ..., w_k]; mode 0: one thread runs w_1..w_k in this order on ONE fresh shared
+            /// module + prepared key; mode 1: k threads behind a barrier, thread i runs w_i; mode 2: like 1, every thread runs
+            /// its workload twice (the second result is reported).  Output: per workload 1 iff bit-identical to its solo run.
+            pub fn mixed(r: &Rec) -> Vec<Vec<i128>> {
+                let (mode, seed) = (r.ps[1], r.ps[2] as u64);
+                let ws: Vec<usize> = r.ps[3..].iter().map(|x| *x as usize).collect();
+                let solos: Vec<std::sync::Arc<Vec<u8>>> = ws.iter().map(|w| solo(*w, seed)).collect();
+                let shared = Ctx::new();
+                let got: Vec<Vec<u8>> = if mode == 0 {
+                    ws.iter().map(|w| workload(&shared, *w, seed)).collect()
+                } else {
+                    let barrier = std::sync::Barrier::new(ws.len());
+                    thread::scope(|sc| {
+                        let hs: Vec<_> = ws.iter().map(|w| { let (sh, b, w) = (&shared, &barrier, *w); sc.spawn(move || {
+                            b.wait();
+                            let first = workload(sh, w, seed);
+                            if mode == 2 { workload(sh, w, seed) } else { first }
+                        }) }).collect();
+                        hs.into_iter().map(|h| h.join().unwrap()).collect()
+                    })
+                };
+                let nontrivial = solos.iter().all(|x| x.iter().any(|b| *b != 0))
+                    && (0..ws.len()).all(|i| (0..i).all(|j| ws[i] == ws[j] || solos[i] != solos[j]));
+                vec![(0..ws.len()).map(|i| (got[i] == *solos[i]) as i128).collect(), vec![nontrivial as i128]]
+            }
+
             /// 20006: ps = [be, off, arena_len, n, len]
             pub fn split(r: &Rec) -> Vec<Vec<i128>> {
                 let (off, alen, n, len) = (r.ps[1] as usize, r.ps[2] as usize, r.ps[3] as usize, r.ps[4] as usize);
@@ -682,6 +780,7 @@ fn kernel(r: &Rec) -> Vec<Vec<i128>> {
         20005 => on_be!(be, shared(r)),
         20006 => on_be!(be, split(r)),
         20007 => on_be!(be, exact(r)),
+        20013 => on_be!(be, mixed(r)),
         #[cfg(feature = "c20hook")]
         20008 => on_be!(be, hook_eval(r, false)),
         #[cfg(feature = "c20hook")]
@@ -888,6 +987,42 @@ pub fn generate(tier: &str, seed: u64) -> Vec<Rec> {
     }
 
     if cfg!(feature = "c20hook") { generate_hook(&mut out, &mut rng, thorough, s, cores); }
+
+    // 20013: ONE module + prepared BDD/CBT key shared by workloads with DIFFERENT per-call parameters (log_domain,
+    // extension factor, output GGSW layout, mode), each compared bit for bit with a solo run on a freshly built identical
+    // key.  Workload codes: 0/10 integer preparation (full, 3 threads / partial, 2 threads), 1..9 direct circuit
+    // bootstrapping (see cbt_params).  mode 0: one thread, in the listed order; 1: one thread per workload behind a barrier;
+    // 2: same, each workload twice.
+    {
+        let all: Vec<i128> = (0..=10).collect();
+        let mut k = s;
+        for a in &all {
+            for b in &all {
+                if a == b { continue; }
+                k += 1;
+                let be = 1 + k % 2;
+                // sequential: every ordered pair (the first call is the one a per-key cache would freeze)
+                if thorough || (a + 2 * b + s) % 3 != 0 || *a == 0 || *b == 0 { out.push(Rec::new(20013, vec![be, 0, 60 + s, *a, *b], vec![])); }
+                // concurrent: every unordered pair
+                if a < b { out.push(Rec::new(20013, vec![3 - be, 1, 61 + s, *a, *b], vec![])); }
+            }
+        }
+        for (mode, ws) in [(1i128, vec![0i128, 1, 4]), (2, vec![0, 1]), (2, vec![10, 7, 2]), (1, vec![0, 1, 2, 3, 6, 7]), (1, vec![4, 5, 8]),
+                           (0, vec![1, 0, 1, 0]), (0, vec![9, 0, 10]), (2, vec![3, 6, 0, 5]), (1, vec![0, 0, 1, 1]), (0, vec![5, 4, 8, 0, 7, 6])] {
+            k += 1;
+            let mut ps = vec![1 + k % 2, mode, 62 + s];
+            ps.extend(ws);
+            out.push(Rec::new(20013, ps, vec![]));
+        }
+        if thorough {
+            for r in 0..40i128 {
+                let n = rng.range(2, 5) as usize;
+                let mut ps = vec![1 + r % 2, rng.range(0, 2) as i128, 70 + s + r % 3];
+                for _ in 0..n { ps.push(rng.range(0, 10) as i128); }
+                out.push(Rec::new(20013, ps, vec![]));
+            }
+        }
+    }
 
     // 20005: shared Module + prepared keys + read-only operands, private scratch; 16 threads, then oversubscribed
     out.push(Rec::new(20005, vec![2, 16, 31 + s], vec![]));
